@@ -3,6 +3,7 @@
   Keys are 64-bit; "position" means "key" here (trusted base item 7).
 -/
 import Walleye.Proofs.RootCorollaries
+import Walleye.Proofs.RootNonneg
 import Walleye.Model.UciText
 namespace Walleye
 open DrawTable
@@ -120,6 +121,35 @@ theorem root_score_nonneg_upto3 (E : Nat) (hg : GameOK g E) (hord : OrdPerm ord)
   have h0 := maxNeg_mem (Spec.negamax g (fuel + 1) (curDepth - 1) 1 t) l (-Gen.posInf) m hm
   rw [negamax_repeated g fuel (curDepth - 1) 1 t m hrep] at h0
   omega
+
+/-- **second sentence of C10 at EVERY iteration depth and under EVERY clock** (every game, every
+    ordering oracle — permuting or not —, null-move pruning and re-searches included): if one
+    iteration of the root loop of `get_best_move` runs through its whole move list (`some (A, B)`)
+    and the clock has not expired by then — a completed depth —, and some root move leads to a
+    position whose key the repetition record already holds at least twice, then the final score `A`
+    of that depth is ≥ 0, and `A` is the score on the last `info` line the iteration printed (all of
+    whose lines carry this depth).  Reason: alpha never decreases in the root loop and the repeated
+    child is valued 0 by its own call before anything else is looked at. -/
+theorem root_score_nonneg_every_depth (fuel curDepth : Nat) (first : P) (t : DrawTable) (l : List P)
+    (best : Option P) (s s' : SS P O) (A : Int) (B : Option P) (hs : TableEq s.table t)
+    (hrun : rootLoop g ord (fuel + 1) curDepth first l (-Gen.posInf) best s = .ok (some (A, B)) s')
+    (hnx : s'.expired = false) (m : P) (hm : m ∈ l) (hrep : t.isThreefold (g.key m) = true) :
+    0 ≤ A ∧ ∃ new : List (Report P), s'.reports.toList = s.reports.toList ++ new ∧
+      (∀ i ∈ infos new, i.depth = curDepth) ∧ (infos new).getLast?.map Info.eval = some A := by
+  have h0 := (rootLoop_nonneg g ord fuel curDepth first t l (-Gen.posInf) best s s' A B hs hrun hnx).2 ⟨m, hm, hrep⟩
+  obtain ⟨new, h1, h2, h3⟩ := rootLoop_last_info g ord (fuel + 1) curDepth first l (-Gen.posInf) best s s' A B hrun
+  refine ⟨h0, new, h1, h2, ?_⟩
+  rcases h3 with ⟨_, hA⟩ | h3
+  · have : (Gen.posInf : Int) = 9999999 := rfl
+    omega
+  · exact h3
+
+/-- and alpha never decreases over a root loop that ends before the clock expires -/
+theorem root_alpha_monotone (fuel curDepth : Nat) (first : P) (t : DrawTable) (l : List P) (alpha : Int)
+    (best : Option P) (s s' : SS P O) (A : Int) (B : Option P) (hs : TableEq s.table t)
+    (hrun : rootLoop g ord (fuel + 1) curDepth first l alpha best s = .ok (some (A, B)) s')
+    (hnx : s'.expired = false) : alpha ≤ A :=
+  (rootLoop_nonneg g ord fuel curDepth first t l alpha best s s' A B hs hrun hnx).1
 
 /-- the fix of 4553a5f: also a FOURTH, fifth … occurrence is a draw (`>= 2`, not `== 2`) -/
 example : DrawTable.isThreefold [(7, 5)] 7 = true := by decide
